@@ -136,8 +136,15 @@ impl RangeFraming {
     }
 }
 pub fn check_range_framing(r: &RangeFraming) -> (String, Vec<(String, String)>) {
-    let pre = format!("C05:range-framing:{}", r.entry.name());
-    let req = drive::request_bytes(&r.method, &r.target, "HTTP/1.1", &[("Host", "localhost"), ("Range", r.value.as_str())], b"");
+    let (pre, target) = match r.target.strip_prefix("unreadable:") {
+        Some(t) => (format!("C05:unreadable-file:{}", r.entry.name()), t.to_string()),
+        None => (format!("C05:range-framing:{}", r.entry.name()), r.target.clone()),
+    };
+    let mut headers: Vec<(&str, &str)> = vec![("Host", "localhost")];
+    if !(r.value.is_empty() && r.target.starts_with("unreadable:")) {
+        headers.push(("Range", r.value.as_str()));
+    }
+    let req = drive::request_bytes(&r.method, &target, "HTTP/1.1", &headers, b"");
     let out = drive::simple(r.entry, &req);
     if let Some(p) = &out.panic {
         return ("panic".into(), vec![(format!("{}:panic:{}:{}", pre, c04::call_site(&p.location), panic_class(&p.message)), p.message.clone())]);
@@ -284,6 +291,37 @@ pub fn run(ctx: &mut Ctx) {
             }
         }
     }
+    // (e) answers produced on the error paths of error paths: a served directory whose index.html
+    //     and 404.html exist but cannot be read (links to /proc/self/mem: is_file() holds, read fails)
+    let bad = crate::tree::scratch_root("c05-unreadable");
+    let _ = std::os::unix::fs::symlink("/proc/self/mem", bad.join("index.html"));
+    let _ = std::os::unix::fs::symlink("/proc/self/mem", bad.join("404.html"));
+    std::fs::create_dir_all(bad.join("d")).unwrap();
+    let _ = std::os::unix::fs::symlink("/proc/self/mem", bad.join("d/index.html"));
+    let _ = std::os::unix::fs::symlink("/proc/self/mem", bad.join("unreadable.txt"));
+    std::env::set_current_dir(&bad).unwrap();
+    ctx.bound("unreadable_files", json!("index.html, 404.html, d/index.html, unreadable.txt exist and cannot be read; 6 targets x GET/HEAD/OPTIONS/POST x with/without Range, both entry points"));
+    for entry in [Entry::Process, Entry::Legacy] {
+        for target in ["/", "/d/", "/d", "/missing", "/index.html", "/unreadable.txt"] {
+            for method in ["GET", "HEAD", "OPTIONS", "POST"] {
+                for value in ["", "bytes=0-0"] {
+                    let r = RangeFraming { entry, method: method.to_string(), target: format!("unreadable:{}", target), value: value.to_string() };
+                    let key = format!("unreadable\0{}", r.to_json());
+                    if !ctx.begin(key.as_bytes()) {
+                        continue;
+                    }
+                    ctx.nontrivial();
+                    let (class, fails) = check_range_framing(&r);
+                    ctx.outcome(&format!("unreadable:{}", class));
+                    for (sig, detail) in fails {
+                        ctx.fail(&sig, || r.to_json(), detail);
+                    }
+                }
+            }
+        }
+    }
+    std::env::set_current_dir(&root).unwrap();
+    let _ = std::fs::remove_dir_all(&bad);
     // (c) transport
     let seeds = corpus::seeds();
     let hostile = corpus::hostile();
@@ -331,6 +369,19 @@ pub fn replay(v: &Value) -> Vec<Failure> {
         Some("reflect") => {
             let r = Reflect { entry: Entry::from_name(v["entry"].as_str().unwrap_or("")), method: v["method"].as_str().unwrap_or("GET").to_string(), header: v["header"].as_str().unwrap_or("Origin").to_string(), value: v["value"].as_str().unwrap_or("").to_string() };
             check_reflect(&r).1
+        }
+        Some("range-framing") if v["target"].as_str().unwrap_or("").starts_with("unreadable:") => {
+            let bad = crate::tree::scratch_root("c05r-unreadable");
+            let _ = std::os::unix::fs::symlink("/proc/self/mem", bad.join("index.html"));
+            let _ = std::os::unix::fs::symlink("/proc/self/mem", bad.join("404.html"));
+            std::fs::create_dir_all(bad.join("d")).unwrap();
+            let _ = std::os::unix::fs::symlink("/proc/self/mem", bad.join("d/index.html"));
+            let _ = std::os::unix::fs::symlink("/proc/self/mem", bad.join("unreadable.txt"));
+            std::env::set_current_dir(&bad).unwrap();
+            let f = check_range_framing(&RangeFraming { entry: Entry::from_name(v["entry"].as_str().unwrap_or("")), method: v["method"].as_str().unwrap_or("GET").to_string(), target: v["target"].as_str().unwrap_or("/").to_string(), value: v["value"].as_str().unwrap_or("").to_string() }).1;
+            std::env::set_current_dir("/").unwrap();
+            let _ = std::fs::remove_dir_all(&bad);
+            f
         }
         Some("range-framing") => check_range_framing(&RangeFraming { entry: Entry::from_name(v["entry"].as_str().unwrap_or("")), method: v["method"].as_str().unwrap_or("GET").to_string(), target: v["target"].as_str().unwrap_or("/").to_string(), value: v["value"].as_str().unwrap_or("").to_string() }).1,
         Some("transport") => check_transport(&Transport { seed: v["seed"].as_u64().unwrap_or(0) as usize, plan: v["plan"].as_str().unwrap_or("first:1").to_string() }).1,
